@@ -677,7 +677,7 @@ var (
 
 func buildIndex() {
 	cellIndex = map[string]string{}
-	for _, c := range append(AllCells(), ImportCells()...) {
+	for _, c := range append(append(AllCells(), ImportCells()...), SaveCells()...) {
 		k := c.Body
 		if k == "" {
 			k = "FILE:" + c.Src
